@@ -70,13 +70,16 @@ MAX_BLOCKS = 400
 MAX_DEPTH = 4
 
 
+_REMAP = [{}]     # callee local -> caller local, for reference parameters that are plain reborrows of a caller parameter
+
+
 def _shift(node, off, boff, poff):
     """deep copy of a statement/terminator/operand tree with locals, block targets and promoted indexes shifted"""
     if isinstance(node, dict):
         out = {}
         for k, v in node.items():
             if k in ("l", "idx") and isinstance(v, int):
-                out[k] = v + off
+                out[k] = _REMAP[0].get(v, v + off)
             elif k == "promoted" and isinstance(v, int):
                 out[k] = v + poff
             else:
@@ -101,6 +104,35 @@ def _shift_term(term, off, boff, poff):
         if isinstance(t.get("unwind"), int):
             t["unwind"] += boff
     return t
+
+
+def _reborrow_root(nd, op):
+    """the caller's reference parameter that operand `op` is a plain (re)borrow / copy of, else None"""
+    pl = op.get("move") or op.get("copy")
+    if pl is None or pl["proj"]:
+        return None
+    l = pl["l"]
+    for _ in range(5):
+        if 1 <= l <= nd["arg_count"]:
+            return l if nd["locals"][l]["ty"].startswith("&") else None
+        defs = []
+        for b in nd["blocks"]:
+            for s_ in b["stmts"]:
+                if s_["k"] == "assign" and s_["place"]["l"] == l and not s_["place"]["proj"]:
+                    defs.append(s_["rv"])
+            t = b["term"]
+            if t["k"] == "call" and t.get("dest") and t["dest"]["l"] == l:
+                return None
+        if len(defs) != 1:
+            return None
+        rv = defs[0]
+        if "ref" in rv and rv["ref"]["proj"] == ["deref"]:
+            l = rv["ref"]["l"]
+        elif "use" in rv and (rv["use"].get("move") or rv["use"].get("copy")) and not (rv["use"].get("move") or rv["use"].get("copy"))["proj"]:
+            l = (rv["use"].get("move") or rv["use"].get("copy"))["l"]
+        else:
+            return None
+    return None
 
 
 def helper_paths(F, closures_only=False):
@@ -171,9 +203,16 @@ def inline_into(F, d, helpers, depth=0):
             del nd["locals"][off:]
             del nd["promoted"][poff:]
             continue
+        remap = {}
         for k, a in enumerate(term["args"]):
             call["stmts"].append({"k": "assign", "place": {"l": off + 1 + k, "proj": []}, "rv": {"use": a},
                                   "line": call["line"], "exp": call.get("exp", False), "inl": "arg"})
+            # `helper(&mut *self, ..)`: the helper's `self` is the caller's own reference parameter; let the spliced body name it
+            r = _reborrow_root(nd, a)
+            if r is not None and gi["locals"][1 + k]["ty"].startswith("&") and nd["locals"][r]["ty"].lstrip("&mut ").strip() == gi["locals"][1 + k]["ty"].lstrip("&mut ").strip():
+                if not any(s_["k"] == "assign" and s_["place"]["l"] == 1 + k and not s_["place"]["proj"] for b_ in gi["blocks"] for s_ in b_["stmts"]):
+                    remap[1 + k] = r
+        _REMAP[0] = remap
         call["term"] = {"k": "goto", "to": boff, "inl": q}
         for gb in gi["blocks"]:
             nb = {"stmts": [_shift(s, off, boff, poff) for s in gb["stmts"]],
@@ -189,6 +228,7 @@ def inline_into(F, d, helpers, depth=0):
                 else:
                     nb["term"] = {"k": "unreachable"}
             nd["blocks"].append(nb)
+        _REMAP[0] = {}
         nd["inlined"].append(q)
         if term.get("to") is not None:
             _thread(F, nd, bi, boff, len(gi["blocks"]), off, term["dest"], term["to"])
